@@ -258,7 +258,7 @@ type c13Pipe struct {
 	Version     int    `json:"version"`
 	Compression string `json:"compression"` // as spelled in STARTUP ("" = none)
 	Options     int    `json:"options_before"`
-	Queries     []bool `json:"queries_compressed"` // one entry per pipelined query: sent compressed?
+	Queries     []bool `json:"queries_compressed"`      // one entry per pipelined query: sent compressed?
 	After       []bool `json:"options_after,omitempty"` // OPTIONS frames (empty body) after the queries: sent with the compressed flag?
 }
 
